@@ -48,6 +48,8 @@ fn main() {
 	let result = std::panic::catch_unwind(std::panic::AssertUnwindSafe(|| match (id.as_str(), &case) {
 		("C20", None) => checks::c20::run(ctx.clone()),
 		("C20", Some(c)) => checks::c20::replay(ctx.clone(), c),
+		("C15", None) => checks::c15::run(ctx.clone()),
+		("C15", Some(c)) => checks::c15::replay(ctx.clone(), c),
 		_ => {
 			eprintln!("MACHINERY: unknown property id {id}");
 			std::process::exit(2)
